@@ -4,6 +4,7 @@ package core
 
 import (
 	"encoding/binary"
+	"io"
 
 	"github.com/scigolib/hdf5/internal/vrt"
 )
@@ -216,4 +217,91 @@ func VerifH_C07_datatype_nested() {
 		vrt.Assert(ct.Members[0].Type.Class == DatatypeCompound, "nested-member-is-compound")
 	}
 	vrt.Covered("nested-parsed")
+}
+
+// ---- M tier: whole readers over an arbitrary file image (concrete signature, symbolic body) ----
+
+type verifFile struct{ data []byte }
+
+func (m *verifFile) ReadAt(p []byte, off int64) (int, error) {
+	if off < 0 || off >= int64(len(m.data)) {
+		return 0, io.EOF
+	}
+	n := copy(p, m.data[off:])
+	if n < len(p) {
+		return n, io.EOF
+	}
+	return n, nil
+}
+
+func verifImage(sig string, body, pad int) *verifFile {
+	b := make([]byte, 0, len(sig)+body+pad)
+	b = append(b, sig...)
+	b = append(b, vrt.Bytes(body)...)
+	b = append(b, make([]byte, pad)...)
+	return &verifFile{data: b}
+}
+
+func VerifH_C07_file_superblock() {
+	vrt.AllocBudget(1 << 30) // the library's own limit for a checked size (utils.MaxChunkSize)
+	vrt.SampleSizes()
+	f := verifImage(Signature, 40, 64)
+	sb, err := ReadSuperblock(f)
+	if err == nil {
+		vrt.Assert(sb != nil, "superblock-nil-without-error")
+		vrt.Covered("superblock-accepted")
+	}
+	vrt.Covered("superblock-read")
+}
+
+func VerifH_C07_file_globalheap() {
+	vrt.AllocBudget(1 << 30) // the library's own limit for a checked size (utils.MaxChunkSize)
+	vrt.SampleSizes()
+	vrt.StepBudget(3000000)
+	f := verifImage("GCOL", 28, 32)
+	sizes := [2]int{4, 8}
+	c, err := ReadGlobalHeapCollection(f, 0, sizes[vrt.Choice(2)])
+	if err == nil {
+		vrt.Assert(c != nil, "gheap-nil-without-error")
+	}
+	vrt.Covered("gheap-read")
+}
+
+func VerifH_C07_file_objectheader_v2() {
+	vrt.AllocBudget(1 << 30) // the library's own limit for a checked size (utils.MaxChunkSize)
+	vrt.SampleSizes()
+	vrt.StepBudget(3000000)
+	f := verifImage("OHDR", 7, 64)
+	sb := verifSB8()
+	oh, err := ReadObjectHeader(f, 0, sb)
+	if err == nil {
+		vrt.Assert(oh != nil, "objectheader-nil-without-error")
+	}
+	vrt.Covered("objectheader-read")
+}
+
+func VerifH_C07_file_objectheader_v1() {
+	vrt.AllocBudget(1 << 30) // the library's own limit for a checked size (utils.MaxChunkSize)
+	vrt.SampleSizes()
+	vrt.StepBudget(3000000)
+	// version 1 header: byte 0 = 1; the rest symbolic (message count, sizes, a continuation message may point anywhere)
+	f := verifImage("\x01", 39, 24)
+	sb := &Superblock{Version: 0, OffsetSize: 8, LengthSize: 8, Endianness: binary.LittleEndian}
+	oh, err := ReadObjectHeader(f, 0, sb)
+	if err == nil {
+		vrt.Assert(oh != nil, "objectheader-nil-without-error")
+	}
+	vrt.Covered("objectheader-v1-read")
+}
+
+func VerifH_C07_file_btreev1() {
+	vrt.AllocBudget(1 << 30) // the library's own limit for a checked size (utils.MaxChunkSize)
+	vrt.SampleSizes()
+	vrt.StepBudget(3000000)
+	f := verifImage("TREE", 44, 64)
+	node, err := ParseBTreeV1Node(f, 0, 8, 1, []uint64{uint64(vrt.U8())})
+	if err == nil && node != nil {
+		_, _ = node.CollectAllChunks(f, 8, []uint64{1})
+	}
+	vrt.Covered("btree-read")
 }
